@@ -1,10 +1,11 @@
 (* Corr/E2ECheck.v — end-to-end cases: what the real gateway did on a generated federation/data/operation,
    compared with the model (components corr.x) and judged directly by the properties' own oracles (prop.x). *)
-From V Require Import Base.Util Gql.Ast Gql.RefExec Model.Perm Model.SkipInclude Model.PermFilter Model.Plan Model.MergeRes Model.Shape Model.Gateway.
+From V Require Import Base.Util Gql.Ast Gql.RefExec Model.Perm Model.SkipInclude Model.PermFilter Model.Plan Model.MergeRes Model.Shape Model.FormatDoc Model.Gateway.
 
 Record obs_request := {
   or_varnames : list string;                        (* keys of the "variables" object that was sent *)
   or_declared : list string;                        (* variables declared by the document *)
+  or_batch : nat;                                   (* index of this document within a batched lookup (from its first alias) *)
   or_url : string; or_optype : string; or_keyword : opkind; or_valid : bool;
   or_root : string; or_doc : list sel;
   or_is_lookup : bool; or_parent : string; or_sel : list sel; or_ids : list string;
@@ -57,12 +58,17 @@ Definition req_key_eqb (a b : string * opkind * string * list string * list stri
   String.eqb u u' && opkind_eqb k k' && String.eqb p p' && multiset_eqb String.eqb ids ids' &&
   (* a received document that does not even parse (an empty fragment body was printed) is compared by its envelope only *)
   (match paths' with ["<unparsable>"] => true | _ => multiset_eqb String.eqb paths paths' end).
-Definition model_req_key (r : request) := (rq_url r, rq_optype r, rq_parent r, rq_ids r, ss_paths (rq_sel r)).
-Definition obs_req_key (r : obs_request) := (or_url r, or_keyword r, or_parent r, or_ids r, match or_doc r with [] => ["<unparsable>"] | _ => ss_paths (or_sel r) end).
+(* which ids share a document of a batched lookup depends on Go's map iteration order: batches are compared by size *)
+Definition batch_ids (b : nat) (ids : list string) : list string :=
+  if Nat.leb 50 (List.length ids) || Nat.ltb 0 b then ["#" +++ nat_str (List.length ids)] else ids.
+Definition model_req_key (r : request) := (rq_url r, rq_optype r, rq_parent r, batch_ids (rq_batch r) (rq_ids r), ss_paths (rq_sel r)).
+Definition obs_req_key (r : obs_request) := (or_url r, or_keyword r, or_parent r, batch_ids (or_batch r) (or_ids r), match or_doc r with [] => ["<unparsable>"] | _ => ss_paths (or_sel r) end).
 
 Definition fault_for (faults : list (string * string * fault)) (rq : request) : option fault :=
   let target := match rq_lookup rq with Some _ => rq_parent rq | None => "root" end in
-  match find (fun f => String.eqb (fst (fst f)) (rq_url rq) && (String.eqb (snd (fst f)) "*" || String.eqb (snd (fst f)) target)) faults with
+  let tb := target +++ "#" +++ nat_str (rq_batch rq) in       (* one document of a batched lookup *)
+  match find (fun f => String.eqb (fst (fst f)) (rq_url rq) &&
+                       (String.eqb (snd (fst f)) "*" || String.eqb (snd (fst f)) target || String.eqb (snd (fst f)) tb)) faults with
   | Some f => Some (snd f) | None => None end.
 
 Definition erase_idx (p : list pe) : list pe := filter (fun e => match e with PName _ => true | PIdx _ => false end) p.
@@ -249,6 +255,17 @@ Fixpoint types_used (s : sel) : list string :=
   | SInline tc _ _ ss | SSpread _ _ _ tc ss => tc :: flat_map types_used ss
   end.
 
+(* format.go:226 / execution.go:492: strings of the operation (literals) and entity ids that Go escapes outside GraphQL's set;
+   format.go:202: a literal with a run of spaces inside a lookup selection *)
+Fixpoint sel_strings (s : sel) : list string :=
+  let vs := fix vs (v : value) : list string :=
+    match v with VStr x | VBlock x => [x] | VList l => flat_map vs l | VObj kvs => flat_map (fun kv => vs (snd kv)) kvs | _ => [] end in
+  let av := fun (a : list (string * value)) => flat_map (fun kv => vs (snd kv)) a in
+  match s with
+  | SField _ _ ar ds _ oss => av ar ++ flat_map (fun d => av (d_args d)) ds ++ match oss with Some ss => flat_map sel_strings ss | None => [] end
+  | SInline _ ds _ ss | SSpread _ ds _ _ ss => flat_map (fun d => av (d_args d)) ds ++ flat_map sel_strings ss
+  end.
+
 Definition run_model (c : e2e_case) : res outcome_t :=
   let W := {| w_services := ec_services c; w_data := ec_data c; w_fault := fault_for (ec_faults c) |} in
   let fs := match ec_fschema c with Some s => s | None => g_schema (ec_gen c) end in
@@ -324,6 +341,10 @@ Definition check_e2e_case (c : e2e_case) : list (string * bool) :=
         | Some j0, false => json_eqb (match obs_data c with Some j => j | None => JNull end) j0 ||
                             negb (match obs_errors c with [] => true | _ => false end)
         | _, _ => true end);
+    ("prop.c02.accounted", match obs_data0 c, nofault with
+        | Some j0, false => json_eqb (match obs_data c with Some j => j | None => JNull end) j0 ||
+                            negb (match obs_errors c with [] => true | _ => false end)
+        | _, _ => true end);
     ("prop.c05.named", forallb (fun e => match oe_kind e with
                                           | ETimeout | EOther | EDownstream => oe_names_service e
                                           | _ => true end) (obs_errors c));
@@ -369,6 +390,10 @@ Definition check_e2e_case (c : e2e_case) : list (string * bool) :=
                                                    | SField _ n _ _ t (Some _) => match lookup (root_of c +++ "." +++ n) (g_locations (ec_gen c)) with None => true | Some _ => false end
                                                    | _ => false end) (flat_map flat_fields client_ss)));
     ("guard.view_has_types", forallb (fun t => match kind_of fs t with Some _ => true | None => false end) (flat_map types_used client_ss));
+    ("guard.gql_safe_strings", forallb gql_safe (flat_map sel_strings client_ss) &&
+                               match m with Ok o => forallb (fun rq => forallb gql_safe (rq_ids rq)) (oc_requests o) | Err _ => true end &&
+                               forallb (fun e => forallb (fun kv => match snd kv with RvLeaf (JStr x) => if String.eqb (fst kv) "id" then gql_safe x else true | _ => true end) (e_fields e)) (ec_data c));
+    ("guard.no_space_runs", negb (existsb has_space_run (flat_map sel_strings client_ss)));
     ("guard.recurring_ip", match m with Ok o => negb (existsb (fun st => ip_recurring st 0) (oc_plan o)) | Err _ => true end);
     (* --- features --- *)
     ("feat.multi_service", Nat.leb 2 (List.length (dedupe_str (map or_url (obs_requests c)))));
